@@ -117,7 +117,8 @@ type Path struct {
 	viol       *Violation
 	outcome    string
 	watch      map[string]bool // functions under wrap-around watch
-	watching   int             // >0 while inside a watched function
+	watching   int
+	watchAcc   *smt.Term
 	noMerge    bool
 	existsVars map[string]bool
 	inExists   bool
@@ -569,12 +570,34 @@ func (p *Path) size(v value, max int, what string) int {
 
 // ---- wrap-around watch (analogue of CBMC's overflow checks), per function
 
+// watchCond accumulates one wrap-around condition; the disjunction is
+// discharged as a single obligation when the outermost watched call returns
+// or panics (watchFlush).
 func (p *Path) watchCond(ovf *smt.Term, what string) {
 	if p.watching == 0 {
 		return
 	}
+	ovf = p.resolve(ovf)
 	p.stats.WatchObl++
-	p.check(p.ctx.Not(ovf), "watch:"+what, "integer wrap-around in watched function: "+what)
+	if ovf.IsFalse() {
+		p.stats.Obligations++
+		p.stats.ObFolded++
+		return
+	}
+	if p.watchAcc == nil {
+		p.watchAcc = ovf
+	} else {
+		p.watchAcc = p.ctx.Or(p.watchAcc, ovf)
+	}
+}
+
+func (p *Path) watchFlush() {
+	if p.watchAcc == nil {
+		return
+	}
+	acc := p.watchAcc
+	p.watchAcc = nil
+	p.check(p.ctx.Not(acc), "watch", "integer wrap-around inside a watched function (result would be wrong)")
 }
 
 func (p *Path) watchArith(op token.Token, x, y *smt.Term, signed bool) {
